@@ -1632,6 +1632,12 @@ class Authenticated(BaseClientHandler):
                     f"[TRYCREATE] No such mailbox: '{cmd.mailbox_name}'"
                 ) from exc
 
+        # No COPYUID response code if no message was copied (a UID set that
+        # names no existing message): its uid-sets may not be empty.
+        #
+        if not src_uids:
+            return None
+
         return self._format_copyuid(
             dest_mbox,
             [u for u in src_uids if u is not None],
@@ -1702,6 +1708,10 @@ class Authenticated(BaseClientHandler):
         #
         src_uid_list = [u for u in src_uids if u is not None]
         dst_uid_list = [u for u in dst_uids if u is not None]
+        if not src_uid_list:
+            # Nothing was moved (a UID set that names no existing message).
+            #
+            return None
         copyuid = self._format_copyuid(dest_mbox, src_uid_list, dst_uid_list)
         await self.client.push(f"* OK {copyuid}\r\n")
 
